@@ -9,7 +9,37 @@ fd path) are left alone: they are only used to delete, never to enumerate inputs
 """
 import os as _os
 
-_seed = _os.environ.get('MESON_VERIF_SHUFFLE_DIRS')
+# Both switches are consumed here: the programs a project runs from its meson.build (run_command scripts,
+# configure_file(command:) generators) are inputs of the configuration, not the code under test, and must see
+# the directory as it is.
+_seed = _os.environ.pop('MESON_VERIF_SHUFFLE_DIRS', None)
+_wlog = _os.environ.pop('MESON_VERIF_WRITELOG', None)
+
+if _wlog:
+    # Names of the files this very process (meson, not its children) opens for writing or renames into place:
+    # the harness plants "stale leftovers" only over files meson itself is responsible for rewriting.
+    import sys as _sys
+
+    _wl = open(_wlog, 'a', buffering=1)
+    _wfd = _wl.fileno()
+    _pid = _os.getpid()
+
+    def _audit(event, args):
+        try:
+            if _os.getpid() != _pid:
+                return
+            if event == 'open':
+                path, _mode, flags = args
+                if isinstance(flags, int) and flags & (_os.O_WRONLY | _os.O_RDWR) and isinstance(path, (str, bytes)):
+                    _os.write(_wfd, (_os.fsdecode(_os.path.abspath(path)) + '\n').encode('utf-8', 'surrogateescape'))
+            elif event == 'os.rename':
+                dst = args[1]
+                if isinstance(dst, (str, bytes)):
+                    _os.write(_wfd, (_os.fsdecode(_os.path.abspath(dst)) + '\n').encode('utf-8', 'surrogateescape'))
+        except Exception:
+            pass
+
+    _sys.addaudithook(_audit)
 
 if _seed:
     import random as _random
